@@ -122,6 +122,14 @@ def pool(draw):
             names = [ln[:-1] for ln in other.splitlines() if ln.endswith(':') and ' ' not in ln]
             if names:
                 lines.append('dw ' + names[0])
+        if i > 0 and draw(st.integers(0, 2)) == 0:
+            # ... or a REGISTER ALIAS that only another program defines (must stay unknown here)
+            import re
+            other = progs[draw(st.integers(0, i - 1))]
+            al = [m.group(1) for m in (re.fullmatch(r'\s*([A-Za-z_]\w*) = (?:x\d+|zero|ra|sp|gp|tp|fp|[ast]\d+)\s*', ln) for ln in other.splitlines()) if m]
+            al = [n for n in al if not any(l.strip().startswith(n + ' =') for l in lines)]
+            if al:
+                lines.append('addi %s, %s, 1' % (al[0], al[0]))
         own_labels = [ln[:-1] for ln in lines if ln.endswith(':') and ' ' not in ln.strip()]
         if own_labels and draw(st.booleans()):
             # the same text as a label-dependent immediate here ...
